@@ -85,7 +85,11 @@ def main():
                 rep = json.load(open(vl[0].split("replay=")[1].strip()))
                 ok = rep["scenario"]["x"] % 7 == 3 and rep["scenario"]["pad"] == [] and rep["scenario"]["x"] < 7
             print("self-check:", "ok - planted violation reported, minimised and replayed" if ok else "FAILED\n" + out)
-            return 0 if ok else 2
+            from simkit import leak
+
+            dead = leak.self_test()
+            print("self-check: state-leak probes", "ok - all work under the baseline state" if not dead else "FAILED " + "; ".join(dead))
+            return 0 if ok and not dead else 2
         finally:
             shutil.rmtree(tmp, ignore_errors=True)
     if a.cmd == "selftest-mutants":
